@@ -83,7 +83,7 @@ vars == <<l, ob, pre, der, dpre, h, hp>>
 IsReset(e) == e.op = "reset"
 
 H0 == [seen |-> {}, viewAt |-> {}, clean |-> <<>>, exported |-> <<>>, keysha |-> <<>>,
-       vals |-> <<>>, damaged |-> {}, preobs |-> [none |-> TRUE]]
+       vals |-> <<>>, damaged |-> {}, failed |-> {}, preobs |-> [none |-> TRUE]]
 
 Quiescent(o, d) == d.has /\ ~o.staging /\ d.applied = d.ccn
 
@@ -100,6 +100,9 @@ Observe(hh, e, r, o, d) ==
         !.exported = IF e.op = "Export" THEN (r :> hh.preobs) @@ @
                      ELSE IF e.op \in {"Unstage", "Replay"} THEN @
                      ELSE [x \in DOMAIN @ \ {r} |-> @[x]],
+        !.failed = IF e.op # "Commit" THEN @
+                   ELSE IF \E j \in DOMAIN e.x.writes : e.x.writes[j].out = "failed" THEN @ \cup {r}
+                   ELSE IF e.x.committed THEN @ \ {r} ELSE @,
         !.keysha = IF r \in hh.damaged THEN @ ELSE Extend(@, [k \in {i.key : i \in d.items} |-> (CHOOSE i \in d.items : i.key = k).sha]),
         !.vals = IF o.full /\ r \notin hh.damaged THEN Extend(@, [k \in DOMAIN o.vals |-> <<o.vals[k].v, o.vals[k].p>>]) ELSE @]
 
@@ -374,6 +377,10 @@ C09_FailedCommit_C ==
     /\ Post.doc = pre.doc
     /\ Post.heads = pre.heads
 
+\* after a failed commit, the retry is as durable as an uninterrupted commit
+C09_RetryDurable_A == Op("Commit") /\ OkRes /\ E.x.committed /\ HasObs(Post) /\ ~Damaged /\ R \in hp.failed
+C09_RetryDurable_C == C03_Durable_C
+
 (* C10 — stored items are trusted only if content matches name *)
 C10_ErrorOrIntact_A == Acting /\ Damaged /\ E.op \in {"Open", "OpenFailed", "Refresh", "Reload"}
 C10_ErrorOrIntact_C ==
@@ -451,7 +458,7 @@ Names == <<"C08_Returns", "C05_WinnerRule", "C05_TreeFromBlocks", "C02_AppliedCo
            "C06_ArrayView", "C16_Reconstructs", "C16_StoredEqualsSubmitted", "C07_Resolve",
            "C09_CommitWriteOrder", "C09_CrashAtomic", "C09_FailedCommit", "C10_ErrorOrIntact",
            "C10_NoAlteredContent", "C12_NoDocChange", "C14_Travel", "C14_Retrievable", "C15_CommitCleans",
-           "C15_Guards", "C15_Unstage", "C15_ExportReplay", "C19_Canonical", "C19_LeafOrderTotal">>
+           "C15_Guards", "C15_Unstage", "C15_ExportReplay", "C19_Canonical", "C19_LeafOrderTotal", "C09_RetryDurable">>
 
 AllChecks ==
     /\ Chk(1, Names[1], C08_Returns_A, C08_Returns_C)
@@ -492,6 +499,7 @@ AllChecks ==
     /\ Chk(36, Names[36], C15_ExportReplay_A, C15_ExportReplay_C)
     /\ Chk(37, Names[37], C19_Canonical_A, C19_Canonical_C)
     /\ Chk(38, Names[38], C19_LeafOrderTotal_A, C19_LeafOrderTotal_C)
+    /\ Chk(39, Names[39], C09_RetryDurable_A, C09_RetryDurable_C)
 
 \* the same predicates as individually named invariants (MeldaTraceStrict.cfg)
 C08_Returns == C08_Returns_A => C08_Returns_C
@@ -532,6 +540,7 @@ C15_Unstage == C15_Unstage_A => C15_Unstage_C
 C15_ExportReplay == C15_ExportReplay_A => C15_ExportReplay_C
 C19_Canonical == C19_Canonical_A => C19_Canonical_C
 C19_LeafOrderTotal == C19_LeafOrderTotal_A => C19_LeafOrderTotal_C
+C09_RetryDurable == C09_RetryDurable_A => C09_RetryDurable_C
 
 -----------------------------------------------------------------------------
 \* every line of the trace must be consumed; prints the antecedent counters
